@@ -19,13 +19,15 @@ if [ -n "$DEMO" ]; then
   T=$(grep -oE "^func (Test[A-Za-z0-9_]+)" zz_demo_test.go | awk '{print $2}' | paste -sd'|')
   RACE=""; grep -q "go test -race" $DEMO && RACE="-race"
   echo "== demo with change (expect FAIL): $T $RACE"; timeout 300 go test $RACE -vet=off -count=1 -run "^($T)\$" . 2>&1 | tail -6
-  git stash -q -- $(git diff --name-only) 2>/dev/null
+  git diff > /var/tmp/seedeval-$P-$N.diff; git apply -R /var/tmp/seedeval-$P-$N.diff   # (never git stash: the stash is shared by all worktrees)
   echo "== demo without change (expect ok)"; timeout 300 go test $RACE -vet=off -count=1 -run "^($T)\$" . 2>&1 | tail -3
-  git stash pop -q 2>/dev/null
+  git apply /var/tmp/seedeval-$P-$N.diff; rm -f /var/tmp/seedeval-$P-$N.diff
+fi
+if [ -n "$CHECKS" ]; then
+  # run the named checks against this scratch tree (patch applied), without touching /repo
+  B=/var/tmp/mcbuild-$P-$N-$$; mkdir -p $B/out
+  rm -f $W/zz_demo_test.go
+  for c in $CHECKS; do echo "== check $c with change"; (cd /verif && MC_REPO=$W MC_BUILD=$B MC_VERIF_OUT=$B/out ./mc.sh check $c --tier ${TIER:-quick} 2>&1 | grep -E "violation key|VIOLATION|KNOWN|exhaustive|HARNESS|not a verdict" | cut -c1-260 | head -12); done
+  rm -rf $B
 fi
 cd /; git -C /repo worktree remove --force $W
-if [ -n "$CHECKS" ]; then
-  cd /repo && (git apply --3way $PATCH 2>/dev/null || git apply $PATCH) && git reset -q
-  for c in $CHECKS; do echo "== check $c with change"; (cd /verif && ./mc.sh check $c --tier ${TIER:-quick} 2>&1 | grep -E "violation key|VIOLATION|KNOWN|exhaustive|HARNESS|not a verdict" | cut -c1-260 | head -12); done
-  git -C /repo checkout -- . ; git -C /repo status --short | head -3
-fi
